@@ -43,6 +43,9 @@ class OrderPipe:
                     if isinstance(st, ast.For):
                         c, w = self.classify(st.iter)
                         classes.append((c if c != NEW else NEW, f"loop over {astx.u(st.iter)[:40]}: {w}"))
+                    elif isinstance(st, ast.AugAssign) and isinstance(st.op, ast.Add) and isinstance(st.value, (ast.Tuple, ast.List)):
+                        # name += (x,) / [x]: new material put at the end; what was there keeps its order
+                        classes.append((NEW, f"{name} += display of new material"))
                     else:
                         classes.append((UNK, f"{name} bound by {type(st).__name__}"))
                     continue
